@@ -10,6 +10,7 @@ from harness import gen_programs as G
 from harness.framework import cnatlist, cnatlist2, pmap
 
 LEVEL = "proof"
+TRANSLATED_KERNELS = ["ChunkKeys.__iter__", "general_blockwise.num_tasks", "_cumsum", "get_item"]   # harness/translate.py: task list and task count of an ordinary blockwise op, and the region of a block, re-translated from /repo on every run and proved equal to Model.Geometry
 RULE = ("K: ChunkKeys / product_from / get_item / normalize_chunks / block-id<->offset on generated chunk geometries vs Model.Geometry; "
         "per op of real finalized plans: len(list(pipeline.mappable)) vs num_tasks vs the model's block enumeration; "
         "O: a recording Callback on real runs (executors x optimize_graph x compute_arrays_in_parallel x batch_size): event trace "
